@@ -38,6 +38,17 @@ type RCase struct {
 	Fresh    [][]byte   `json:"fresh"`    // the tuple used for indexes >= len(Tuples)
 }
 
+// tooLongForDir: the queue directory of a key set is named after its (sanitised) joined ID plus '.' and 8 hash
+// characters; beyond 255 bytes it cannot be created. Such a key set has no queue directory at all: its chunks cannot be
+// persisted (that is C03's unusable-directory case) - and must not turn up in anybody else's directory either.
+func tooLongForDir(tuple [][]byte) bool {
+	n := len(tuple) - 1
+	for _, v := range tuple {
+		n += len(v)
+	}
+	return n+9 > 255
+}
+
 func restartConfig(c RCase, root string) string {
 	var b strings.Builder
 	b.WriteString("anchors: []\nschema:\n  fields: [facility, level, time, host, app, pid, source, extradata, log, k0, k1, k2]\n  maxFields: 14\n")
@@ -55,13 +66,34 @@ func restartConfig(c RCase, root string) string {
 type stallConsumer struct {
 	args    base.ChunkConsumerArgs
 	stopped *channels.SignalAwaitable
+	drain   chan struct{}      // closed by the test a moment after the shutdown began
+	taken   func(data []byte) // called for chunks consumed in drain mode
 }
 
+// A queue without a directory (ID too long for a directory name) cannot save anything: its buffer waits at shutdown
+// until the consumer has taken what is pending. So the consumer stalls only until the shutdown is under way, then takes
+// whatever is still offered to it (for queues with a directory everything has been saved by then, or is counted here).
 func (s *stallConsumer) Start() {
 	go func() {
-		<-s.args.InputClosed.Channel()
-		s.args.OnFinished()
-		s.stopped.Signal()
+		defer s.stopped.Signal()
+		defer s.args.OnFinished()
+		select {
+		case <-s.args.InputClosed.Channel():
+			return
+		case <-s.drain:
+		}
+		for {
+			select {
+			case ch, ok := <-s.args.InputChannel:
+				if !ok {
+					return
+				}
+				s.taken(append([]byte(nil), ch.Data...))
+				s.args.OnChunkConsumed(ch)
+			case <-s.args.InputClosed.Channel():
+				return
+			}
+		}
 	}()
 }
 func (s *stallConsumer) Stopped() channels.Awaitable { return s.stopped }
@@ -183,7 +215,7 @@ func feed(ld *agentrun.Loader, sink base.BufferReceiverSink, nkeys int, tuple []
 func runRestart(c RCase) vh.Result {
 	res := vh.Result{}
 	defs.IntermediateFlushInterval = 10 * time.Millisecond
-	defs.IntermediateChannelTimeout = 5 * time.Second
+	defs.IntermediateChannelTimeout = 300 * time.Millisecond // also bounds how long Destroy waits for a stalled consumer when a queue has no directory
 	defs.BufferMaxNumChunksInMemory = 4
 	root, err := os.MkdirTemp("", "verif-c06r-")
 	if err != nil {
@@ -202,8 +234,24 @@ func runRestart(c RCase) vh.Result {
 		syscall.Umask(old)
 		panic("restart configuration rejected: " + err.Error())
 	}
-	ld1.PipelineArgs.NewConsumerOverride = func(_ logger.Logger, _ string, _ base.ChunkDecoder, args base.ChunkConsumerArgs) base.ChunkConsumer {
-		return &stallConsumer{args: args, stopped: channels.NewSignalAwaitable()}
+	drain := make(chan struct{})
+	var takenMu sync.Mutex
+	takenGen1 := map[string]map[string]int{} // output -> tuple -> records consumed by the draining consumers of generation 1
+	ld1.PipelineArgs.NewConsumerOverride = func(_ logger.Logger, name string, _ base.ChunkDecoder, args base.ChunkConsumerArgs) base.ChunkConsumer {
+		return &stallConsumer{args: args, stopped: channels.NewSignalAwaitable(), drain: drain, taken: func(data []byte) {
+			msg, err := vh.DecodeForwardMessage(data)
+			if err != nil {
+				return
+			}
+			takenMu.Lock()
+			defer takenMu.Unlock()
+			if takenGen1[name] == nil {
+				takenGen1[name] = map[string]int{}
+			}
+			for _, ev := range msg.Events {
+				takenGen1[name][tupleOfEvent(ev.Fields, c.NKeys)]++
+			}
+		}}
 	}
 	orch1 := ld1.StartOrchestrator(logger.Root())
 	sink1 := orch1.NewSink("gen1", 1)
@@ -217,7 +265,14 @@ func runRestart(c RCase) vh.Result {
 		}
 	}
 	sink1.Close()
-	orch1.Shutdown()
+	shutdownDone := make(chan struct{})
+	go func() { orch1.Shutdown(); close(shutdownDone) }()
+	select {
+	case <-shutdownDone:
+	case <-time.After(100 * time.Millisecond):
+	}
+	close(drain)
+	<-shutdownDone
 	syscall.Umask(old)
 
 	disk, err := scanQueues(root, c.Outputs, c.NKeys)
@@ -274,6 +329,12 @@ func runRestart(c RCase) vh.Result {
 	}
 	res.NonTrivial = true
 	res.Classes = append(res.Classes, fmt.Sprintf("keys-%d", c.NKeys), fmt.Sprintf("outputs-%d", c.Outputs), fmt.Sprintf("umask-%03o", c.Umask))
+	for _, tu := range c.Tuples {
+		if tooLongForDir(tu) {
+			res.Classes = append(res.Classes, "ID-too-long-for-a-directory-name")
+			break
+		}
+	}
 	if comma {
 		res.Classes = append(res.Classes, "comma-in-key-value")
 	}
@@ -289,6 +350,14 @@ func runRestart(c RCase) vh.Result {
 	for o := 0; o < c.Outputs; o++ {
 		name := fmt.Sprintf("out%d", o)
 		for t, n := range sent {
+			n -= takenGen1[name][t] // consumed by generation 1's consumers after they stopped stalling
+			if tooLongForDir(tupleByCanon[t]) {
+				if onDisk[name][t] != 0 {
+					res.Violation = vh.Fail("route:queue-dir-shared", "tuple %.80s... has an ID too long for a directory name, so it has no queue directory of its own, yet %d of its records are in queue files of %s: they sit in a directory that belongs to another key set (or to the root, the queue of the empty ID)", t, onDisk[name][t], name)
+					return res
+				}
+				continue
+			}
 			if onDisk[name][t] != n {
 				res.Violation = vh.Fail("route:queued-record-lost", "generation 1 (stalled consumer): tuple %s sent %d records, %d are in the queue files of %s", t, n, onDisk[name][t], name)
 				return res
@@ -543,7 +612,9 @@ func genRestart(t *rapid.T) RCase {
 	genTu := func() [][]byte {
 		tu := make([][]byte, c.NKeys)
 		for i := range tu {
-			switch rapid.IntRange(0, 3).Draw(t, "vKind") {
+			switch k := rapid.IntRange(0, 15).Draw(t, "vKind"); map[bool]int{true: 4, false: k % 4}[k == 15] {
+			case 4:
+				tu[i] = []byte(strings.Repeat(rapid.SampledFrom([]string{"x", "ab"}).Draw(t, "u"), rapid.SampledFrom([]int{120, 123, 124, 130}).Draw(t, "rep")))
 			case 0, 1:
 				tu[i] = []byte(rapid.SampledFrom(restartAlphabet).Draw(t, "v"))
 			case 2:
@@ -586,6 +657,16 @@ func enumRestart(yield func(RCase) bool) {
 				if !yield(RCase{NKeys: 2, Template: "$k0.$k1", Umask: um, Outputs: 1, Tuples: [][][]byte{{[]byte(a), []byte(b)}, {[]byte(b), []byte(a + "x")}}, PerTuple: []int{1, 2}, Again: []int{1, 0}, Fresh: [][]byte{[]byte("f"), []byte("")}}) {
 					return
 				}
+			}
+		}
+		long1, long2 := []byte(strings.Repeat("x", 250)), []byte(strings.Repeat("y", 260))
+		for _, tuples := range [][][][]byte{{{long1}}, {{long1}, {[]byte("")}}, {{long1}, {long2}}, {{long1}, {[]byte("a")}}} {
+			per := make([]int, len(tuples))
+			for i := range per {
+				per[i] = 2
+			}
+			if !yield(RCase{NKeys: 1, Template: "t.$k0", Umask: um, Outputs: 1, Tuples: tuples, PerTuple: per, Again: []int{0, len(tuples)}, Fresh: [][]byte{[]byte("")}}) {
+				return
 			}
 		}
 		// all one-key tuples at once
